@@ -211,7 +211,10 @@ func genVal(t *rapid.T) gn.Val {
 	case 7:
 		return gn.Val{Kind: "decimal", I: rapid.SampledFrom([]int64{125, -30}).Draw(t, "digits"), F: float64(rapid.IntRange(0, 2).Draw(t, "prec"))}
 	case 8:
-		return gn.Val{Kind: "leaflist", L: []gn.Val{{Kind: "int", I: 1}, {Kind: "string", S: "x"}, {Kind: "bool", B: true}}}
+		// the same members in every rotation: a list in another order is another value
+		l := []gn.Val{{Kind: "int", I: 1}, {Kind: "string", S: "x"}, {Kind: "bool", B: true}}
+		r := rapid.IntRange(0, 2).Draw(t, "rot")
+		return gn.Val{Kind: "leaflist", L: append(append([]gn.Val{}, l[r:]...), l[:r]...)}
 	case 9:
 		return gn.Val{Kind: "json", S: rapid.SampledFrom([]string{`{"a":1}`, `[1,2]`, `"s"`}).Draw(t, "j")}
 	default:
@@ -297,6 +300,7 @@ type tgen struct {
 	name   string   // the name the target is configured with
 	peers  []string // the names of the other configured targets
 	legacy int      // percent of its values that travel in the deprecated Update.value field (see Target.Legacy)
+	lists  bool     // most of its values are leaf-lists over the same few members (see val)
 }
 
 // How much of what a device says is in the old encoding: most devices none of it; one that still speaks it does so
@@ -304,7 +308,7 @@ type tgen struct {
 var legacyShares = []int{0, 0, 0, 0, 0, 60, 85, 100}
 
 func newTgen(t *rapid.T, name string, peers []string) *tgen {
-	return &tgen{t: t, m: newModel(), name: name, peers: peers, legacy: rapid.SampledFrom(legacyShares).Draw(t, "legacy")}
+	return &tgen{t: t, m: newModel(), name: name, peers: peers, legacy: rapid.SampledFrom(legacyShares).Draw(t, "legacy"), lists: rapid.IntRange(0, 5).Draw(t, "lists") == 0}
 }
 
 func (g *tgen) speaksLegacy() bool {
@@ -315,6 +319,16 @@ func (g *tgen) speaksLegacy() bool {
 func (g *tgen) val() gn.Val {
 	if g.speaksLegacy() {
 		return genLegacyVal(g.t)
+	}
+	if g.lists && rapid.IntRange(0, 2).Draw(g.t, "aslist") > 0 {
+		// a device whose leaves are mostly leaf-lists over the same members: lists that differ only in
+		// order (or in a repeated member) follow each other on one leaf
+		l := []gn.Val{{Kind: "string", S: "10.0.0.1"}, {Kind: "string", S: "10.0.0.2"}, {Kind: "int", I: 1}}
+		r := rapid.IntRange(0, 3).Draw(g.t, "lrot")
+		if r == 3 {
+			return gn.Val{Kind: "leaflist", L: append(l[:2:2], l[1])}
+		}
+		return gn.Val{Kind: "leaflist", L: append(append([]gn.Val{}, l[r:]...), l[:r]...)}
 	}
 	return genVal(g.t)
 }
